@@ -65,6 +65,11 @@ def jobs(tier, seed):
     out.append(_j('custom-hole+board-one-street', C.custom((3, 4), [
         (True, (False, True), 1, False, 'POSITION', 1, None), (False, (), 2, False, 'POSITION', 1, None)],
         deck='KUHN9', hand_types=('KuhnAny',), autos='NONE', boards=2), opts={'deal': 'rich'}))
+    # the documented Kuhn poker state: three-card deck, two players (one card left over) and three players (deck dealt out)
+    for stacks in [(2, 2), (3, 2), (2, 2, 2)]:
+        for autos in ('ALL', 'NONE'):
+            out.append(_j('kuhn-3-card-deck', C.custom(stacks, C.KUHN_1, deck='KUHN_POKER', hand_types=('KuhnPokerHand',), antes=1,
+                                                       structure='FL', autos=autos), opts={'show': (None, True, False), 'deal': 'rich' if autos == 'NONE' else 'default'}))
     # explicit / unknown cards mixed with engine-dealt ones, warnings as errors
     for cfg in [C.nt((3, 4), autos=['ANTE_POSTING', 'BET_COLLECTION', 'BLIND_OR_STRADDLE_POSTING', 'HAND_KILLING', 'CHIPS_PUSHING', 'CHIPS_PULLING']),
                 C.stud((3, 5), autos=['ANTE_POSTING', 'BET_COLLECTION', 'HAND_KILLING', 'CHIPS_PUSHING', 'CHIPS_PULLING'])]:
